@@ -42,6 +42,10 @@ def apply_knobs(kn):
     fd = list(finder_mod.ShareFinder.__init__.__defaults__)
     fd[-1] = kn.get("max_outstanding", 10)
     finder_mod.ShareFinder.__init__.__defaults__ = tuple(fd)
+    # the reader's initial guess of the segment size (a class attribute of DownloadNode; readers and uploaders are
+    # configured independently, so the guess may be smaller or larger than the file's real segment size)
+    from allmydata.immutable.downloader import node as dlnode_mod
+    dlnode_mod.DownloadNode.default_max_segment_size = kn.get("guess_seg", 128 * 1024)
 
 
 def gen_knobs(ch):
@@ -49,11 +53,12 @@ def gen_knobs(ch):
             "chunksize": ch.pick("config", "chunksize", [7, 64, 1000, 50 * 1024]),
             "force_v2": ch.chance("config", "force_v2", 0.15),
             "overdue": ch.pick("config", "overdue", [0.01, 0.05, 10.0, 10.0]),
-            "max_outstanding": ch.pick("config", "max_outstanding", [1, 2, 10])}
+            "max_outstanding": ch.pick("config", "max_outstanding", [1, 2, 10]),
+            "guess_seg": ch.pick("config", "guess_seg", [128 * 1024, 128 * 1024, 16, 96, 1000, 5000])}
 
 
 def gen_net(ch):
-    return {"lat_profile": ch.pick("config", "lat_profile", ["uniform", "uniform", "heavy", "fifo"]),
+    return {"threads": ch.pick("config", "threads", ["sync", "sync", "async"]), "lat_profile": ch.pick("config", "lat_profile", ["uniform", "uniform", "heavy", "fifo"]),
             "jitter": ch.pick("config", "jitter", [0.0005, 0.05, 0.5]),
             "base_lat": 0.001}
 
@@ -800,6 +805,7 @@ def exec_layout(case):
         # --- reader grid view: a fresh client connected only to the first nservers servers
         g.net.profile = cfg["net"]["lat_profile"]
         g.net.jitter = cfg["net"]["jitter"]
+        g.set_threads(cfg["net"].get("threads"))
         rd = g.add_client(k=3, happy=1, n=10, connect=False)
         for s in servers:
             g.connect(rd, s)
@@ -1417,6 +1423,7 @@ def exec_checkrepair(case):
             probe("mut-" + kind)
         g.net.profile = cfg["net"]["lat_profile"]
         g.net.jitter = cfg["net"]["jitter"]
+        g.set_threads(cfg["net"].get("threads"))
         # the checking/repairing client knows only the verify-cap; it is connected to the layout servers
         # plus the spare servers (repair needs somewhere to put new shares)
         ck = g.add_client(k=k, happy=1, n=n, segsize=cfg["seg"], connect=False)
